@@ -132,6 +132,22 @@ def hostile_cases(rnd):
     cases.append(("trigger2", "BEGIN:VEVENT\r\nBEGIN:VALARM\r\nTRIGGER;RELATED=END:-PT\r\nTRIGGER:P1Y\r\nREPEAT:x\r\nEND:VALARM\r\nEND:VEVENT\r\n"))
     cases.append(("categories", "BEGIN:VEVENT\r\nCATEGORIES:a,b\\,c,,\r\nCATEGORIES;X=1:\r\nRESOURCES:a,b\r\nEND:VEVENT\r\n"))
     cases.append(("freebusy-tz", "BEGIN:VFREEBUSY\r\nFREEBUSY;TZID=Europe/Berlin:20240101T000000/PT1H,20240102T000000/20240102T010000\r\nFREEBUSY;TZID=Nope:20240101T000000/PT1H\r\nEND:VFREEBUSY\r\n"))
+    # type confusion: every VALUE type against value texts of every other grammar (found C04-F5: a PERIOD
+    # with a DATE start parsed but could not be serialised)
+    texts = ["20150219", "20150219T133000", "20150219T133000Z", "20150219/PT10H", "20150219/20150221", "20150219T000000/P1D",
+             "20150219T000000Z/20150220T000000Z", "20150219T000000/20150220", "P1D", "-PT15M", "PT", "P1W2D", "133000", "133000Z", "+0100",
+             "-000000", "1", "-1.5", "1;2", "TRUE", "a,b", "mailto:a@b", "FREQ=DAILY", "FREQ=DAILY;UNTIL=20150219", "AAAA", "", "20150219,20150220",
+             "20150219T133000,20150220", "20150219/PT10H,20150220T000000/PT1H"]
+    vtypes = ["BINARY", "BOOLEAN", "CAL-ADDRESS", "DATE", "DATE-TIME", "DURATION", "FLOAT", "INTEGER", "PERIOD", "RECUR", "TEXT", "TIME",
+              "URI", "UTC-OFFSET", "X-FOO", ""]
+    for pn in ("RDATE", "DTSTART", "TRIGGER", "FREEBUSY", "X-P", "EXDATE", "DURATION", "GEO", "RRULE"):
+        for vt in vtypes:
+            par = f";VALUE={vt}" if vt else ""
+            body = "".join(f"{pn}{par}:{t}\r\n" for t in texts)
+            cases.append(("type-confusion-lenient", f"BEGIN:VEVENT\r\n{body}END:VEVENT\r\n"))
+            for t in texts[:: 2 if vt in ("BINARY", "BOOLEAN", "X-FOO", "URI", "TEXT") else 1]:
+                cases.append(("type-confusion", f"BEGIN:VTODO\r\n{pn}{par}:{t}\r\n{pn}{par};TZID=Europe/Berlin:{t}\r\nEND:VTODO\r\n"))
+                cases.append(("type-confusion-ev", f"BEGIN:VEVENT\r\n{pn}{par}:{t}\r\nEND:VEVENT\r\n"))
     cases.append(("bom-mid", "BEGIN:VEVENT\r\n﻿SUMMARY:x\r\nEND:VEVENT\r\n"))
     cases.append(("nul", "BEGIN:VEVENT\r\nSUMMARY:a\x00b\r\nX\x00Y:1\r\nEND:VEVENT\r\n"))
     cases.append(("only-folds", "\r\n \r\n \r\n\t\r\n"))
